@@ -107,6 +107,15 @@ def run_lemma(job):
     skipped = []
     if job['kind'] == 'nl_spellings':
         sp = spellings(job['tier'])[job['chunk']::job['nchunks']]
+        # history: the same terminals are first compiled under the other global flags in this process (an answer remembered per
+        # regexp text would be stale here); construction only, nothing is checked on these instances
+        for off in range(0, len(sp), 40):
+            part = sp[off:off + 40]
+            g = 'start: %s\n' % ' | '.join('T%d' % i for i in range(len(part))) + ''.join('T%d: %s\n' % (i, s) for i, s in enumerate(part))
+            try:
+                Lark(g, parser='lalr', lexer='basic', g_regex_flags=job.get('other_gflags', 0))
+            except Exception:
+                pass
         for off in range(0, len(sp), 40):
             part = sp[off:off + 40]
             g = 'start: %s\n' % ' | '.join('T%d' % i for i in range(len(part)))
@@ -349,7 +358,7 @@ def plan(tier, seed):
     for gf in (0, int(re.S)):
         for c in range(nch):
             lemmas.append({'name': 'L-nl:spellings:gflags=%d:%d/%d' % (gf, c, nch), 'kind': 'nl_spellings', 'tier': tier, 'chunk': c,
-                           'nchunks': nch, 'gflags': gf, 'timeout': 600 if quick else 3000})
+                           'nchunks': nch, 'gflags': gf, 'other_gflags': int(re.S) - gf, 'timeout': 600 if quick else 3000})
     lemmas.append({'name': 'L-nl:shipped-grammars', 'kind': 'nl_grammars', 'tier': tier, 'timeout': 600})
     nb = 8 if quick else 12
     slices = []
@@ -360,11 +369,11 @@ def plan(tier, seed):
                        'timeout': 120 if quick else 1500, 'bound': {'newline_bits': 4 if quick else 6}})
     # end-to-end: class-strings through every lexer
     combos = []
-    for g in ('lines', 'nlvia', 'dotall'):
+    for g in ('lines', 'nlvia', 'dotall', 'meta1'):
         for parser, lexer, cost in (('lalr', 'basic', 0.06), ('lalr', 'contextual', 0.06), ('earley', 'dynamic', 0.27), ('earley', 'dynamic_complete', 0.3)):
             for by in ((False, True) if g == 'lines' or not quick else (False,)):
                 combos.append((g, parser, lexer, by, cost))
-    Ks = {'lines': 8, 'nlvia': 8, 'dotall': 7}
+    Ks = {'lines': 8, 'nlvia': 8, 'dotall': 7, 'meta1': 7}
     for g, parser, lexer, by, cost in combos:
         Lq = 3 if quick else (5 if parser == 'lalr' else 4)
         k = Ks[g]
